@@ -800,13 +800,16 @@ func ruleLoopEvery(c *Ctx) {
 			// end of the loop, whatever its header says
 			exhausted := func(br *ast.BranchStmt) bool {
 				is, ok := parents[parents[br]].(*ast.IfStmt)
-				if !ok || len(is.Body.List) != 1 || is.Body.List[0] != ast.Stmt(br) {
+				if !ok {
 					return false
 				}
 				cnd := ast.Unparen(is.Cond)
-				// giving up on an error is not an early exit either
+				// giving up on an error is not an early exit either (whatever else the branch does with the error)
 				if be, ok := cnd.(*ast.BinaryExpr); ok && be.Op == token.NEQ && isNilExpr(info, be.Y) && isErrorT(info.TypeOf(be.X)) {
 					return true
+				}
+				if len(is.Body.List) != 1 || is.Body.List[0] != ast.Stmt(br) {
+					return false
 				}
 				if u, ok := cnd.(*ast.UnaryExpr); ok && u.Op == token.NOT {
 					cnd = ast.Unparen(u.X)
@@ -1130,8 +1133,9 @@ func ruleTextHex(c *Ctx) {
 				}
 				// in a helper: len(text) against 2*len(dst)
 				if dstParam != nil && (be.Op == token.EQL || be.Op == token.NEQ) {
-					l, okL := exprPoly(info, be.X, nil, nil, 0)
-					r, okR := exprPoly(info, be.Y, nil, nil, 0)
+					hdefs := singleDefs(info, body)
+					l, okL := exprPoly(info, be.X, hdefs, nil, 0)
+					r, okR := exprPoly(info, be.Y, hdefs, nil, 0)
 					if okL && okR {
 						d := polyAdd(l, r, -1)
 						want := "len(" + dstParam.Name() + ")"
@@ -1213,4 +1217,289 @@ func ruleTextHex(c *Ctx) {
 			c.unm(key, fd.Pos(), "no hex decoding into the receiver found")
 		}
 	})
+}
+
+func init() {
+	register(&Rule{Name: "lock.escape", Floor: 0,
+		Doc: "a method that takes its structure's lock and gives it up before it returns does not hand out a pointer into the guarded state: no result type reaches (through slices, maps, struct fields) a pointer type *T that the guarded fields also reach and that the package goes on writing after it was built (a value never written again, or one that brings its own mutex/atomic, can be read by anybody), unless the method builds the pointed-to value itself (a literal or new(T) in the method or the helpers it calls). A caller that walks such a pointer afterwards reads the state without the lock while a writer appends to it",
+		Run: ruleLockEscape})
+}
+
+// ptrTargets: the named struct types T such that t reaches *T through slices, arrays, maps, pointers and struct fields.
+func ptrTargets(t types.Type, out map[*types.Named]bool, seen map[types.Type]bool, depth int) {
+	if t == nil || seen[t] || depth > 6 {
+		return
+	}
+	seen[t] = true
+	switch x := t.(type) {
+	case *types.Pointer:
+		if nt, ok := x.Elem().(*types.Named); ok {
+			if _, isStruct := nt.Underlying().(*types.Struct); isStruct {
+				out[nt] = true
+			}
+		}
+		ptrTargets(x.Elem(), out, seen, depth+1)
+	case *types.Slice:
+		ptrTargets(x.Elem(), out, seen, depth+1)
+	case *types.Array:
+		ptrTargets(x.Elem(), out, seen, depth+1)
+	case *types.Map:
+		ptrTargets(x.Key(), out, seen, depth+1)
+		ptrTargets(x.Elem(), out, seen, depth+1)
+	case *types.Named:
+		ptrTargets(x.Underlying(), out, seen, depth+1)
+	case *types.Struct:
+		for i := 0; i < x.NumFields(); i++ {
+			ptrTargets(x.Field(i).Type(), out, seen, depth+1)
+		}
+	}
+}
+
+func ruleLockEscape(c *Ctx) {
+	shared := sharedSetup(c)
+	n := 0
+	for _, s := range shared {
+		guarded := map[*types.Named]bool{}
+		for i := 0; i < s.st.NumFields(); i++ {
+			f := s.st.Field(i)
+			if isMutexFieldName(s, f.Name()) {
+				continue
+			}
+			if is, _ := isSyncMutex(f.Type()); is {
+				continue
+			}
+			ptrTargets(f.Type(), guarded, map[types.Type]bool{}, 0)
+		}
+		if len(guarded) == 0 {
+			continue
+		}
+		info := s.pk.TypesInfo
+		// of those, the ones the package goes on writing after they were built (a field stored, appended to, deleted
+		// from, through a value that is not a fresh local): a value that is never written again can be read by anybody.
+		// A type that brings its own mutex or atomic synchronises itself.
+		written := map[*types.Named]bool{}
+		for _, file := range s.pk.Syntax {
+			for _, d := range file.Decls {
+				fd, ok := d.(*ast.FuncDecl)
+				if !ok || fd.Body == nil {
+					continue
+				}
+				forEachStore(info, fd.Body, func(sel *ast.SelectorExpr, what string) {
+					if what == "address-taken" {
+						return
+					}
+					nt := namedOf(info.TypeOf(sel.X))
+					if nt == nil || !guarded[nt] {
+						return
+					}
+					if id, ok := ast.Unparen(sel.X).(*ast.Ident); ok {
+						if freshLocals(info, fd, nt)[info.ObjectOf(id)] {
+							return
+						}
+					}
+					written[nt] = true
+				})
+			}
+		}
+		selfSync := func(nt *types.Named) bool {
+			st, ok := nt.Underlying().(*types.Struct)
+			if !ok {
+				return false
+			}
+			for i := 0; i < st.NumFields(); i++ {
+				if is, _ := isSyncMutex(st.Field(i).Type()); is {
+					return true
+				}
+				if fn := namedOf(st.Field(i).Type()); fn != nil && fn.Obj().Pkg() != nil && (fn.Obj().Pkg().Path() == "sync/atomic" || fn.Obj().Pkg().Path() == "sync") {
+					return true
+				}
+			}
+			return false
+		}
+		for _, mn := range sortedKeys(s.methods) {
+			m := s.methods[mn]
+			if !m.acquires || m.fd.Type.Results == nil {
+				continue
+			}
+			res := map[*types.Named]bool{}
+			for _, f := range m.fd.Type.Results.List {
+				ptrTargets(info.TypeOf(f.Type), res, map[types.Type]bool{}, 0)
+			}
+			for _, nt := range sortedNamed(res) {
+				if !guarded[nt] || !written[nt] || selfSync(nt) {
+					continue
+				}
+				n++
+				key := s.name + "." + mn + "->*" + nt.Obj().Name()
+				// built here: a literal or new(T) of that type in the method (or the functions of the package it calls)
+				if buildsOwn(c.P, s.pk, m.fd, nt, 0, map[*ast.FuncDecl]bool{}) {
+					c.ok(key, m.fd.Pos(), "the *%s handed out are built by the method itself", nt.Obj().Name())
+				} else {
+					c.bad(key, m.fd.Pos(), "%s.%s takes the lock, gives it up and returns values through which a *%s of the guarded state can be reached: whoever walks it afterwards reads that state without the lock", s.name, mn, nt.Obj().Name())
+				}
+			}
+		}
+	}
+	c.ok("zrnt", token.NoPos, "%d results of locking methods could reach guarded pointers by type; each looked at", n)
+}
+
+func sortedNamed(m map[*types.Named]bool) []*types.Named {
+	var out []*types.Named
+	for k := range m {
+		out = append(out, k)
+	}
+	sort.Slice(out, func(i, j int) bool { return out[i].Obj().Name() < out[j].Obj().Name() })
+	return out
+}
+
+// buildsOwn: fd (or a function of the package it calls, three levels) contains a composite literal or new() of nt.
+func buildsOwn(p *Prog, pk *packages.Package, fd *ast.FuncDecl, nt *types.Named, depth int, seen map[*ast.FuncDecl]bool) bool {
+	if fd == nil || fd.Body == nil || seen[fd] || depth > 3 {
+		return false
+	}
+	seen[fd] = true
+	info := pk.TypesInfo
+	found := false
+	ast.Inspect(fd.Body, func(k ast.Node) bool {
+		if found {
+			return false
+		}
+		switch x := k.(type) {
+		case *ast.CompositeLit:
+			if t := namedOf(info.TypeOf(x)); t != nil && t.Obj() == nt.Obj() {
+				found = true
+			}
+		case *ast.CallExpr:
+			if id, ok := x.Fun.(*ast.Ident); ok && id.Name == "new" && len(x.Args) == 1 {
+				if t := namedOf(info.TypeOf(x.Args[0])); t != nil && t.Obj() == nt.Obj() {
+					found = true
+				}
+			}
+			if f := calleeFunc(info, x); f != nil && f.Pkg() == pk.Types {
+				if buildsOwn(p, pk, declOfFunc(pk, f), nt, depth+1, seen) {
+					found = true
+				}
+			}
+		}
+		return !found
+	})
+	return found
+}
+
+func init() {
+	register(&Rule{Name: "loop.stale", Floor: 0,
+		Doc: "a local computed once before a loop from a variable that the loop goes on changing, and read inside the loop after such a change, is a snapshot: it holds what the variable was worth before the first round (withdrawable = exit_end + delay hoisted out of a loop that advances exit_end). Every such snapshot on today's tree is one of the reviewed ones (loopStaleReviewed: the value is meant to be the one from before the loop); a new one is reported",
+		Run: ruleLoopStale})
+}
+
+// loopStaleReviewed: function -> snapshot locals that are meant to keep the value from before the loop.
+var loopStaleReviewed = map[string]map[string]string{}
+
+func ruleLoopStale(c *Ctx) {
+	n := 0
+	c.P.funcDecls(func(pk *packages.Package, fd *ast.FuncDecl) {
+		if fd.Body == nil || !strings.Contains(pk.PkgPath, "/eth2/") {
+			return
+		}
+		info := pk.TypesInfo
+		fn := pkgShort(pk.Types) + "." + funcName(fd)
+		defs := singleDefs(info, fd.Body)
+		parents := parentMap(fd.Body)
+		ast.Inspect(fd.Body, func(k ast.Node) bool {
+			var body *ast.BlockStmt
+			var loop ast.Node
+			switch x := k.(type) {
+			case *ast.ForStmt:
+				body, loop = x.Body, x
+			case *ast.RangeStmt:
+				body, loop = x.Body, x
+			}
+			if body == nil {
+				return true
+			}
+			// variables the loop assigns (plain locals and parameters; not the loop's own counters)
+			changed := map[types.Object]token.Pos{}
+			ast.Inspect(body, func(m ast.Node) bool {
+				switch x := m.(type) {
+				case *ast.FuncLit:
+					return false
+				case *ast.AssignStmt:
+					if x.Tok == token.DEFINE {
+						return true
+					}
+					for _, l := range x.Lhs {
+						if id, ok := ast.Unparen(l).(*ast.Ident); ok {
+							if o, ok := info.ObjectOf(id).(*types.Var); ok && !(o.Pos() >= loop.Pos() && o.Pos() <= loop.End()) {
+								if _, seen := changed[o]; !seen {
+									changed[o] = x.Pos()
+								}
+							}
+						}
+					}
+				case *ast.IncDecStmt:
+					if id, ok := ast.Unparen(x.X).(*ast.Ident); ok {
+						if o, ok := info.ObjectOf(id).(*types.Var); ok && !(o.Pos() >= loop.Pos() && o.Pos() <= loop.End()) {
+							if _, seen := changed[o]; !seen {
+								changed[o] = x.Pos()
+							}
+						}
+					}
+				}
+				return true
+			})
+			if len(changed) == 0 {
+				return true
+			}
+			// locals defined once, before the loop, from an expression over such a variable, and read in the loop
+			reported := map[types.Object]bool{}
+			ast.Inspect(body, func(m ast.Node) bool {
+				if _, ok := m.(*ast.FuncLit); ok {
+					return false
+				}
+				id, ok := m.(*ast.Ident)
+				if !ok {
+					return true
+				}
+				l, ok := info.Uses[id].(*types.Var)
+				if !ok || reported[l] {
+					return true
+				}
+				d, ok := defs[l]
+				if !ok || d.rhs == nil || d.pos != 0 || !(d.rhs.End() < loop.Pos()) {
+					return true
+				}
+				// the snapshot is arithmetic over the variable (a plain copy `old := v` says what it is)
+				if _, plain := ast.Unparen(stripConv(info, d.rhs)).(*ast.Ident); plain || !hasArith(d.rhs) {
+					return true
+				}
+				// the definition stands in a block that encloses the loop
+				var over types.Object
+				ast.Inspect(d.rhs, func(q ast.Node) bool {
+					if qid, ok := q.(*ast.Ident); ok {
+						if o := info.ObjectOf(qid); o != nil {
+							if _, isChanged := changed[o]; isChanged && over == nil {
+								over = o
+							}
+						}
+					}
+					return true
+				})
+				if over == nil {
+					return true
+				}
+				reported[l] = true
+				n++
+				key := fn + ":" + l.Name() + "<-" + over.Name()
+				if why, ok := loopStaleReviewed[fn][l.Name()]; ok {
+					c.ok(key, id.Pos(), "reviewed: %s", why)
+				} else {
+					c.bad(key, id.Pos(), "%s is computed once before the loop from %s (`%s`), the loop changes %s and goes on reading %s: from the second round on it holds a value that no longer follows %s", l.Name(), over.Name(), truncate(types.ExprString(d.rhs), 60), over.Name(), l.Name(), over.Name())
+				}
+				_ = parents
+				return true
+			})
+			return true
+		})
+	})
+	c.ok("zrnt", token.NoPos, "%d locals are computed before a loop from a variable the loop changes and read inside it; all reviewed", n)
 }
